@@ -213,7 +213,8 @@ def make_family(name, existing, reqs, fault_kinds=None, alias=None):
         asserts.no_dangling(ctx, None, None, pre, final, results[0])
         return finish(ctx, ','.join(str(r.status) for r in results),
                       info=dict(points=sched.points, trace=sched.trace))
-    return Family(name, path, bounds=dict(
+    return Family(name, path, conformance=not (
+        fault_kinds and 'deadlock+rollback' in fault_kinds), bounds=dict(
         requests=[r.name for r in reqs], consumer='existing' if existing
         else 'new', scheduling='every interleaving at transaction '
         'granularity (pre-emption before the first contended access of each '
